@@ -440,9 +440,9 @@ type c13Ups struct {
 }
 
 type c13Nginx struct {
-	files      []file.File          // what the file manager holds
-	stateFiles map[string][]string  // state file path -> servers (survive reloads)
-	http       map[string]*c13Ups   // upstreams of the running configuration
+	files      []file.File         // what the file manager holds
+	stateFiles map[string][]string // state file path -> servers (survive reloads)
+	http       map[string]*c13Ups  // upstreams of the running configuration
 	stream     map[string]*c13Ups
 	nextID     int
 	reloads    int
@@ -933,6 +933,15 @@ func c13RunOSS(w c13World) []c13Obs {
 	return c13Observe(w, cfg, hb, sb)
 }
 
+// c13Mix scrambles the seed: vu.NewRng(k) and vu.NewRng(k+n) are the same splitmix stream shifted by n draws, so
+// neighbouring VERIF_SEED values would otherwise replay almost the same cases.
+func c13Mix(z uint64) uint64 {
+	z = (z ^ (z >> 30)) * 0xBF58476D1CE4E5B9
+	z = (z ^ (z >> 27)) * 0x94D049BB133111EB
+	z ^= z >> 31
+	return z*0xD6E8FEB86659FD93 + 0x2545F4914F6CDD1D
+}
+
 func c13Total(obs []c13Obs) int {
 	n := 0
 	for _, o := range obs {
@@ -943,7 +952,7 @@ func c13Total(obs []c13Obs) int {
 
 func TestVerifC13(t *testing.T) {
 	out := vu.Open("C13")
-	rng := vu.NewRng(out.Seed ^ 0xC13)
+	rng := vu.NewRng(c13Mix(out.Seed ^ 0xC13))
 	nRes := out.Count(900, 16000)
 	nHostile := out.Count(250, 4000)
 	nPlus := out.Count(350, 4000)
